@@ -67,7 +67,86 @@ def units(tier):
     mp = 2 if tier == "quick" else 3
     n = len(name_sigs(mp))
     step = 8 if tier == "quick" else 25
-    return [("untyped", tier, i, min(n, i + step)) for i in range(0, n, step)] + [("typed", tier, 0, 0)]
+    no = len(_override_sigs(tier))
+    return ([("untyped", tier, i, min(n, i + step)) for i in range(0, n, step)] + [("typed", tier, 0, 0)]
+            + [("override", tier, i, i + 1) for i in range(no)])
+
+
+def _override_sigs(tier):
+    """method signatures (after self) for the override route: every shape with <= 1 parameter (quick) / a 2-parameter slice (thorough), names permuted"""
+    sigs = name_sigs(1)
+    if tier == "thorough":
+        sigs = sigs + [p for p in name_sigs(2) if len(p) == 2][::9]
+    return sigs
+
+
+def _override(res, tier, ci, only=None):
+    """entry point `overrides`: class C(B, A) with m defined in all three; accepted (no incompatible_override) must mean that every call
+    shape either base's m binds is bound by C.m too - for every base, not only the first in the MRO"""
+    from pyanalyze.error_code import ErrorCode
+    from pa.run import check, get_checker
+    sigs = _override_sigs(tier)
+    shapes = call_shapes()
+    ck = get_checker("c07ov", settings={ErrorCode.incompatible_override: True})
+
+    def table(params):
+        ns = {}
+        exec("def f(self%s): pass" % ((", " + S.render_params(params)) if params else ""), ns)
+        row = 0
+        for i, (npos, kws) in enumerate(shapes):
+            try:
+                ns["f"](None, *([0] * npos), **{k: 0 for k in kws})
+                row |= 1 << i
+            except TypeError:
+                pass
+        return row
+    tabs = [table(p) for p in sigs]
+    pc = sigs[ci]
+    lines = []
+    cases = []
+    for ai, pa_ in enumerate(sigs):
+        for bi, pb in enumerate(sigs):
+            if only is not None and [ai, bi] != only:
+                continue
+            k = len(cases)
+            hdr = lambda p: "self" + ((", " + S.render_params(p)) if p else "")
+            lines.append("class A%d:\n    def m(%s): pass\nclass B%d:\n    def m(%s): pass\nclass C%d(B%d, A%d):\n    def m(%s): pass\n" % (k, hdr(pa_), k, hdr(pb), k, k, k, hdr(pc)))
+            cases.append((ai, bi))
+    src = "".join(lines)
+    fails = check(src, checker=ck)
+    res.transitions += 1
+    bad_lines = {f.get("lineno") for f in fails if f["code"].name == "incompatible_override"}
+    for k, (ai, bi) in enumerate(cases):
+        res.states += 1
+        res.validated += 1
+        line_c = 6 * k + 6
+        diagnosed = line_c in bad_lines
+        missA = tabs[ai] & ~tabs[ci]
+        missB = tabs[bi] & ~tabs[ci]
+        sound = not (missA or missB)
+        res.outcomes["override:accepted=%s/sound=%s" % (not diagnosed, sound)] += 1
+        if not diagnosed and not sound:
+            which = "second-base" if (missA and not missB) else ("first-base" if (missB and not missA) else "both-bases")
+            bad = missA or missB
+            kk = (bad & -bad).bit_length() - 1
+            npos, kws = shapes[kk]
+            call = "(%s)" % ", ".join(["0"] * npos + ["%s=0" % x for x in kws])
+            le, la = _canon(sigs[ai] if missA else sigs[bi], pc)
+            try:
+                nsx = {}
+                exec("def f(self%s): pass" % ((", " + S.render_params(pc)) if pc else ""), nsx)
+                nsx["f"](None, *([0] * npos), **{x: 0 for x in kws})
+                why = "binds?"
+            except TypeError as e:
+                msg = str(e)
+                why = ("multiple-values" if "multiple values" in msg else "missing" if "missing" in msg else "unexpected-kw" if "unexpected keyword" in msg
+                       else "posonly-as-kw" if "positional-only" in msg else "too-many-pos" if "positional argument" in msg else "other")
+            res.violation({"kind": "override-unsound-accept", "which": which, "expected": le, "actual": la, "cpython": why},
+                          {"mode": "override", "tier": tier, "c": ci, "pair": [ai, bi], "order": 2 * 10 ** 9 + ci * 10 ** 5 + k},
+                          "class C(B, A): A.m(self, %s), B.m(self, %s), C.m(self, %s) is not reported as an incompatible override, yet %s.m%s binds and C.m%s raises TypeError"
+                          % (S.render_params(sigs[ai]), S.render_params(sigs[bi]), S.render_params(pc), "A" if missA else "B", call, call))
+    if ci % 7 == 0:
+        res.sample({"C.m": "def m(self, %s)" % S.render_params(pc), "bases": len(cases)})
 
 
 _C = {}
@@ -217,6 +296,8 @@ def run_unit(unit):
     res = UnitResult()
     if kind == "untyped":
         _untyped(res, tier, lo, hi)
+    elif kind == "override":
+        _override(res, tier, lo)
     else:
         _typed(res, tier)
     return res
@@ -224,6 +305,9 @@ def run_unit(unit):
 
 def replay(case):
     res = UnitResult()
+    if case["mode"] == "override":
+        _override(res, case.get("tier", "quick"), case["c"], only=case["pair"])
+        return list(res.viol.values())
     if case["mode"] == "untyped":
         tier = "quick" if case["i"] < len(name_sigs(2)) and case["j"] < len(name_sigs(2)) and case.get("order", 0) == case["i"] * len(name_sigs(2)) + case["j"] else "thorough"
         _untyped(res, tier, case["i"], case["i"] + 1, only_j=case["j"])
